@@ -213,8 +213,38 @@ def extract_ws_control():
     return out
 
 
+def extract_write_and_drop():
+    """(a) `write_request` puts the whole request on the wire before it returns: the flush (blocking,
+    async) is unconditional / the WebSocket send is `send` (feed + flush), not `feed`;
+    (b) `Drop for WebSocketClient` closes the writer only when the last handle goes."""
+    out = {}
+    for kind, path, ty in FILES:
+        src = test_mod_cut(strip(read(path)))
+        body = fn_body(impl_block(src, r"impl " + ty + r"\s*\{"), "write_request")
+        if kind == "ws":
+            out[kind] = re.search(r"\.\s*send\s*\(\s*WsMessage::Binary", body) is not None
+            continue
+        w = re.search(r"write_message(_async)?\s*\(", body)
+        fl = re.search(r"\.\s*flush\s*\(\s*\)", body)
+        if not w:
+            raise ExtractError(f"{kind}: write_request does not call write_message")
+        # a flush that is missing, precedes the write, or sits behind a condition is read as "may not flush"
+        between = body[w.end():fl.start()] if fl and fl.start() > w.end() else None
+        out[kind] = between is not None and re.search(r"\bif\b|\bmatch\b|\breturn\b", between) is None
+    ws = test_mod_cut(strip(read("src/websocket_client.rs")))
+    m = re.search(r"impl Drop for WebSocketClient\s*\{", ws)
+    if not m:
+        only_last = True            # no Drop: nothing is ever closed behind the other handles' back
+    else:
+        d = fn_body(ws[m.start():], "drop")
+        only_last = (re.search(r"if\s+Arc::strong_count\s*\(\s*&self\.inner\s*\)\s*(!=\s*1|>\s*1)\s*\{\s*return\s*;", d) is not None
+                     and len(re.findall(r"strong_count", d)) == 1)
+    return {"writeFlushes": [out["blocking"], out["async"], out["ws"]], "wsDropClosesOnlyLast": only_last}
+
+
 def extract():
     f = {kind: extract_one(kind, path, ty) for kind, path, ty in FILES}
+    f["writeDrop"] = extract_write_and_drop()
     f["wsControl"] = extract_ws_control()
     return f
 
@@ -242,6 +272,11 @@ def render(facts):
             "/-- src/websocket_client.rs `decode_websocket_frame`: what the reader does with each non-binary message kind. -/",
             f"def wsPing : CtlAction := .{wc['Ping']}", f"def wsPong : CtlAction := .{wc['Pong']}",
             f"def wsClose : CtlAction := .{wc['Close']}", f"def wsText : CtlAction := .{wc['Text']}",
+            "",
+            "/-- `write_request` of Client / AsyncClient / WebSocketClient puts the whole request on the wire before it returns. -/",
+            f"def writeFlushes : List Bool := [{', '.join(_b(x) for x in facts['writeDrop']['writeFlushes'])}]",
+            "/-- `Drop for WebSocketClient` closes the writer only when the last handle is dropped. -/",
+            f"def wsDropClosesOnlyLast : Bool := {_b(facts['writeDrop']['wsDropClosesOnlyLast'])}",
             "", "end Repe.Gen.Mux", ""]
     return "\n".join(out)
 
